@@ -2832,6 +2832,8 @@ impl LpgStore {
             }
         }
 
+        #[cfg(grafeo_verif)]
+        grafeo_common::verif::sched_point("lpg.intern_label.after_miss");
         let mut label_to_id = self.label_to_id.write();
         let mut id_to_label = self.id_to_label.write();
 
@@ -2857,6 +2859,8 @@ impl LpgStore {
             }
         }
 
+        #[cfg(grafeo_verif)]
+        grafeo_common::verif::sched_point("lpg.intern_edge_type.after_miss");
         let mut type_to_id = self.edge_type_to_id.write();
         let mut id_to_type = self.id_to_edge_type.write();
 
